@@ -37,8 +37,16 @@ def oracle_row(pattern, subjects, casefold):
     g2 = [fnm.fnmatch(pattern, s, casefold) for s in subjects]
     out = []
     has_class = "[:" in pattern
+
+    def nonascii_cased(t):
+        return any((not c.isascii()) and c.lower() != c.upper() for c in t)
+    pat_cased = casefold and nonascii_cased(pattern)
     for s, a, b in zip(subjects, g1, g2):
         if a != b:
+            out.append(None)
+            continue
+        if casefold and (pat_cased or nonascii_cased(s)):
+            # which non-ASCII letters fold together is a property of the locale (the C locale folds none)
             out.append(None)
             continue
         if has_class and not s.isascii():
